@@ -336,10 +336,17 @@ def build(cid, hist, part_viols=None):
     return rig
 
 
+def _pages_ops(cid):
+    """Writing (with wrapping and scrolling) on a page that is not shown, then showing or copying it."""
+    w = 40 if cid in ('cga-t40', 'cga-s1', 'tandy-s5') else 80
+    return [b'SCREEN ,,1,0', b'SCREEN ,,0,1', b'SCREEN ,,1,1', b'SCREEN ,,0,0', b'PCOPY 1,0', b'PCOPY 0,1',
+            b'LOCATE 24,%d' % w, b'PRINT STRING$(%d,"W");' % (w + 3), b'PRINT "xyz"', b'CLS']
+
+
 def _expand(hist, opsel):
     cid = hist[0]
     stmts = [h for h in hist[1:]]
-    ops = CONFIGS[cid]['ops'] if opsel == 'all' else _core_ops(cid)
+    ops = {'all': lambda: CONFIGS[cid]['ops'], 'core': lambda: _core_ops(cid), 'pages': lambda: _pages_ops(cid)}[opsel]()
     out = []
     for op in ops:
         rig = build(cid, stmts)
@@ -368,6 +375,10 @@ def expand_core(hist):
     return _expand(hist, 'core')
 
 
+def expand_pages(hist):
+    return _expand(hist, 'pages')
+
+
 def work_root(shard):
     """Root state of a config: setup statements checked, public get_pixels cross-check."""
     cid = shard
@@ -390,7 +401,7 @@ def work_root(shard):
 def work_bfs(shard):
     cid, opsel, depth, budget = shard
     part = Partial()
-    res = bfs.explore(expand_all if opsel == 'all' else expand_core, [(cid,)], depth, part,
+    res = bfs.explore({'all': expand_all, 'core': expand_core, 'pages': expand_pages}[opsel], [(cid,)], depth, part,
                       time_budget=budget, label='%s_%s' % (cid.replace('-', '_'), opsel))
     part.add('levels_' + cid, len(res['levels']))
     return part
@@ -401,12 +412,14 @@ def legs(ctx):
                bound='%d configurations: attach, setup statements, rebuild' % len(CONFIGS))]
     if ctx.quick:
         plan = [(cid, 'all', 2, None) for cid in CONFIGS] + [
-            (cid, 'core', 3, None) for cid in ('cga-t80', 'cga-s1', 'ega-s9')]
+            (cid, 'core', 3, None) for cid in ('cga-t80', 'cga-s1', 'ega-s9')] + [
+            (cid, 'pages', 4, None) for cid in ('cga-t80', 'ega-s9')]
     else:
         plan = [(cid, 'all', 4 if cid == 'cga-t80' else 3, None) for cid in CONFIGS] + [
-            (cid, 'core', 5 if cid in ('cga-t80', 'cga-t40') else 4, None) for cid in CONFIGS]
+            (cid, 'core', 5 if cid in ('cga-t80', 'cga-t40') else 4, None) for cid in CONFIGS] + [
+            (cid, 'pages', 6, None) for cid in ('cga-t80', 'cga-t40', 'vga-t80', 'ega-s9', 'tandy-s5')]
     for cid, opsel, depth, budget in plan:
-        nops = len(CONFIGS[cid]['ops']) if opsel == 'all' else len(_core_ops(cid))
+        nops = len({'all': CONFIGS[cid]['ops'], 'core': _core_ops(cid), 'pages': _pages_ops(cid)}[opsel])
         out.append(Leg('bfs-%s-%s' % (cid, opsel), [(cid, opsel, depth, budget)], work_bfs, exhaustive=True,
                        serial=True,
                        bound='%s: all histories of <= %d statements over %d ops (%s alphabet), states merged '
